@@ -138,8 +138,13 @@ def _weave_states_in_region(
                     if_state = _weave_states_in_region(op.true_region, state.copy(), rewriter)
                     else_state = _weave_states_in_region(op.false_region, state.copy(), rewriter)
 
+                    # states that were invalidated in one of the branches are unknown after the scf.if:
+                    invalidated = [acc for acc in state if acc not in if_state or acc not in else_state]
+
                     # calculate the delta:
                     delta = calc_if_state_delta(state, if_state, else_state)
+                    for acc in invalidated:
+                        del state[acc]
                     # no delta = nothing to do
                     if not delta:
                         continue
@@ -183,6 +188,13 @@ def _weave_states_in_region(
                     # go through the for loop body find all accelerators that are touched
                     # the order of this tuple is important
                     updated_accelerators = tuple(sorted(find_all_acc_names_in_region(op.body)))
+
+                    # ops inside the loop that have effects invalidate the state of all accelerators
+                    # that are not set up again inside the loop
+                    if has_accfg_effects(op):
+                        for acc_name in tuple(state):
+                            if acc_name not in updated_accelerators:
+                                del state[acc_name]
 
                     # check which states got new uses:
                     # no state change in loop => nothing to do
@@ -251,6 +263,8 @@ def _weave_states_in_region(
                 # any other op that contains ops:
                 elif op.regions:
                     _weave_states_in_region(op, dict(), rewriter)
+                    if has_accfg_effects(op):
+                        state.clear()
                 # Check if the op has effects on accfg state
                 elif has_accfg_effects(op):
                     state.clear()
